@@ -6,6 +6,8 @@
      ins:<front|end|after|before|dxe|replace|gfront|gend|gafter|gbefore>:<target text>:<file bytes>
      rm:<0|1>:<target text>            remove / remove_pad
      pe:<target text>:<pe32 bytes>     replace_pe32
+     rmx:<0|1>:<pattern>:<set>         remove / remove_pad with a regular expression; <set> = the texts
+     pex:<pattern>:<set>:<pe32 bytes>  (comma separated, hex) the pattern matches in full
      ro:<name>:<arg>                   a read-only visitor (find json table count validate cat dump comment)
    The g* spellings are the generalised `insert file <path> <where> <target>` form: same visitor. *)
 open Model
@@ -13,6 +15,9 @@ open Glue
 open Ffsrun
 
 let split_colon (s : string) : string list = String.split_on_char ':' s
+
+let set_of_field (f : string) : z list list =
+  if f = "-" || f = "" then [] else List.map bytes_of_hex (String.split_on_char ',' f)
 
 let op_of_token (t : string) : op option =
   match split_colon t with
@@ -22,10 +27,13 @@ let op_of_token (t : string) : op option =
       | "after" | "gafter" -> Some IAfter | "before" | "gbefore" -> Some IBefore
       | "dxe" -> Some IDxe | "replace" -> Some IReplace | _ -> None in
     (match it with
-     | Some it -> Some (OInsert (it, bytes_of_hex target, bytes_of_hex file))
+     | Some it -> Some (OInsert (it, TLit (bytes_of_hex target), bytes_of_hex file))
      | None -> None)
-  | ["rm"; p; target] -> Some (ORemove (p = "1", bytes_of_hex target))
-  | ["pe"; target; pe] -> Some (OReplacePE32 (bytes_of_hex target, bytes_of_hex pe))
+  | ["rm"; p; target] -> Some (ORemove (p = "1", TLit (bytes_of_hex target)))
+  | ["pe"; target; pe] -> Some (OReplacePE32 (TLit (bytes_of_hex target), bytes_of_hex pe))
+  (* a pattern: the model gets the set of texts it matches in full (computed by the executor) *)
+  | ["rmx"; p; _pattern; set] -> Some (ORemove (p = "1", TSet (set_of_field set)))
+  | ["pex"; _pattern; set; pe] -> Some (OReplacePE32 (TSet (set_of_field set), bytes_of_hex pe))
   | "ro" :: _ -> Some ORead
   | _ -> None
 
@@ -68,7 +76,7 @@ let obs_edit (img : z list) (ops : op list) : string =
            | Panic _ -> "panic"
            | Fuel -> "hang")))
 
-let obs_find (img : z list) (fvp : bool) (arg : z list) : string =
+let obs_find (img : z list) (s : sel) : string =
   match parse_bios dec u2s nvar depth (nat_of_int (List.length img + 1)) z240 img Z0 with
   | Err _ -> "err-parse"
   | Panic _ -> "panic"
@@ -80,7 +88,7 @@ let obs_find (img : z list) (fvp : bool) (arg : z list) : string =
         | NFile (h, _, _) -> Buffer.add_string b ("F:" ^ hex_of_bytes h.f_guid ^ ";")
         | NVol (h, _, _) -> Buffer.add_string b ("V:" ^ hex_of_bytes (fv_name h) ^ ";")
         | _ -> Buffer.add_string b "?;")
-      (find_elems (SText (fvp, arg)) elems);
+      (find_elems s elems);
     "ok " ^ Buffer.contents b
 
 let eval_edit fn args : string option =
@@ -96,12 +104,13 @@ let eval_edit fn args : string option =
        | Some ops ->
          let o = obs_edit (bytes_of_hex img) ops in
          if String.length o >= 3 && String.sub o 0 3 = "ok " then
-           Some (if valid_image depth (bytes_of_hex (String.sub o 3 (String.length o - 3))) then "ok 1" else "ok 0")
+           Some (if valid_image dec depth (bytes_of_hex (String.sub o 3 (String.length o - 3))) then "ok 1" else "ok 0")
          else Some o
        | None -> None)
-    | "find", [img; fvp; arg] -> Some (obs_find (bytes_of_hex img) (fvp = "1") (bytes_of_hex arg))
+    | "find", [img; fvp; arg] -> Some (obs_find (bytes_of_hex img) (SText (fvp = "1", bytes_of_hex arg)))
+    | "findx", [img; _pattern; set] -> Some (obs_find (bytes_of_hex img) (SAny (false, set_of_field set)))
     | "valid", [img] ->
-      Some (if valid_image depth (bytes_of_hex img) then "ok 1" else "ok 0")
+      Some (if valid_image dec depth (bytes_of_hex img) then "ok 1" else "ok 0")
     | "guidstr", [g] -> Some ("ok " ^ hex_of_bytes (guid_string (bytes_of_hex g)))
     | "guidparse", [s] ->
       Some (match guid_parse (bytes_of_hex s) with
